@@ -256,7 +256,7 @@ fn response_parts(r: bs::ResponseType) -> Option<(Vec<u8>, Vec<u8>)> {
 
 /// All instances through `block_to_response`; a third of them additionally inside wire
 /// messages through `on_message_received`.
-async fn run_cert(classes: &[Value], per_class: usize, seed: u64, lines: &mut Vec<String>, stats: &mut HashMap<String, u64>) {
+fn run_cert(classes: &[Value], per_class: usize, seed: u64, lines: &mut Vec<String>, stats: &mut HashMap<String, u64>) {
     let peer = PeerId::random();
     let (mut proto, mut handle) = bs::BitswapHarness::new();
     lines.push(jline(json!({"e": "reset", "kind": "cert", "B": 0, "M": 0, "sizes": []})));
@@ -274,13 +274,13 @@ async fn run_cert(classes: &[Value], per_class: usize, seed: u64, lines: &mut Ve
                 pending.push(inst);
             }
             if pending.len() >= 7 || (ci + 1 == classes.len() && k + 1 == per_class) {
-                flush_message(&mut proto, &mut handle, peer, std::mem::take(&mut pending), &mut rng, lines, stats).await;
+                flush_message(&mut proto, &mut handle, peer, std::mem::take(&mut pending), &mut rng, lines, stats);
             }
         }
     }
 }
 
-async fn flush_message(
+fn flush_message(
     proto: &mut bs::BitswapHarness,
     handle: &mut bs::BitswapHandle,
     peer: PeerId,
@@ -524,7 +524,8 @@ fn main() {
     // ---- certification
     if let Some(p) = args.get("classes") {
         let classes = read_jsonl(p);
-        rt.block_on(run_cert(&classes, args.u64("per-class", 10) as usize, seed, &mut lines, &mut stats));
+        // outside the tokio runtime: the protocol instance is polled by a plain executor
+        run_cert(&classes, args.u64("per-class", 10) as usize, seed, &mut lines, &mut stats);
         stats.insert("cert_classes".into(), classes.len() as u64);
     }
 
